@@ -1470,8 +1470,10 @@ isal_create_hufftables_subset(struct isal_hufftables *hufftables,
 
         memset(hufftables, 0, sizeof(struct isal_hufftables));
 
+        /* Only literal bytes may be left without a code; the end of block symbol
+         * (ISAL_DEF_LIT_SYMBOLS - 1) always needs one, whatever its count */
         heap_size = init_heap64_semi_complete(&heap_space, lit_len_histogram, LIT_LEN,
-                                              ISAL_DEF_LIT_SYMBOLS);
+                                              ISAL_DEF_LIT_SYMBOLS - 1);
         gen_huff_code_lens(&heap_space, heap_size, code_len_count,
                            (struct huff_code *) lit_huff_table, LIT_LEN, MAX_DEFLATE_CODE_LEN);
         max_lit_len_sym = set_huff_codes(lit_huff_table, LIT_LEN, code_len_count);
